@@ -87,6 +87,14 @@ impl KillRing {
         }
     }
 
+    /// The text of the last yank was inserted `n` times: a yank-pop has to
+    /// replace all of it.
+    pub fn repeated(&mut self, n: usize) {
+        if let Action::Yank(size) = self.last_action {
+            self.last_action = Action::Yank(size * n);
+        }
+    }
+
     /// Yank killed text stored in previous slot.
     /// Return `None` when the previous command was not a yank.
     pub fn yank_pop(&mut self) -> Option<(usize, &String)> {
